@@ -4,6 +4,7 @@ import (
 	"fmt"
 	"math"
 	"strings"
+	"sync"
 	"sync/atomic"
 	"time"
 
@@ -28,6 +29,8 @@ func Wait(c *sexp.S, out *Out) {
 		out.Put("%s", patient(func() string { return waitTiming(math.Float64frombits(c.List[4].Uint())) }))
 	case "shape":
 		out.Put("%s", patient(func() string { return waitShape(c.List[4].Atom, c.List[5].Int(), c.List[6].Atom == "err") }))
+	case "crowd":
+		out.Put("%s", patient(func() string { return waitCrowd(c.List[4].Int(), c.List[5].Atom) }))
 	case "cross":
 		out.Put("%s", patient(func() string { return waitCross(c.List[4].Atom, c.List[5].Int()) }))
 	case "abandon":
@@ -48,6 +51,89 @@ func patient(scenario func() string) string {
 		res = scenario()
 	}
 	return res
+}
+
+// waitCrowd: n runners, each executing a command whose handler returns only after the handlers of ALL n runners have been
+// invoked (actors waiting for each other's cue). Alone, every runner's handler is invoked by its own Next; together it must
+// be the same — whatever the library shares between runners must not make one runner's command wait for another's.
+func waitCrowd(n int, shape string) string {
+	var entered int32
+	all := make(chan struct{})
+	var once sync.Once
+	arrive := func() {
+		if int(atomic.AddInt32(&entered, 1)) == n {
+			once.Do(func() { close(all) })
+		}
+	}
+	runners := make([]*ysgo.DialogueRunner, n)
+	for i := range runners {
+		dr, err := ysgo.NewDialogueRunner(nil, "a", strings.NewReader("title: S\n---\nbefore\n<<hold>>\nafter\n===\n"))
+		if err != nil {
+			return "CROWD loaderr"
+		}
+		var regErr error
+		switch shape {
+		case "noret":
+			regErr = dr.ConvertAndAddCommand("hold", func() { arrive(); <-all })
+		case "err":
+			regErr = dr.ConvertAndAddCommand("hold", func() error { arrive(); <-all; return nil })
+		case "chan":
+			regErr = dr.ConvertAndAddCommand("hold", func() <-chan error {
+				arrive()
+				ch := make(chan error, 1)
+				go func() { <-all; ch <- nil }()
+				return ch
+			})
+		default:
+			dr.AddCommand("hold", func([]*variable.Value) <-chan error {
+				arrive()
+				ch := make(chan error, 1)
+				go func() { <-all; ch <- nil }()
+				return ch
+			})
+		}
+		if regErr != nil {
+			return "CROWD registration-refused"
+		}
+		runners[i] = dr
+		if el, err, _, p := timedNext(dr); p || err != nil || el == nil || el.Line.Text != "before" {
+			return "CROWD bad-first-line"
+		}
+	}
+	for _, dr := range runners {
+		if _, err, took, p := timedNext(dr); p || took > nextBudget {
+			return fmt.Sprintf("CROWD next-blocked-for %v", took)
+		} else if err != ysgo.ErrWaitingForCommandCompletion && n > 1 {
+			return "CROWD not-waiting"
+		}
+	}
+	select {
+	case <-all:
+	case <-time.After(3 * time.Second):
+		once.Do(func() { close(all) }) // let the goroutines go
+		return fmt.Sprintf("CROWD only %d of %d handlers were invoked: a runner's command waits for other runners", atomic.LoadInt32(&entered), n)
+	}
+	deadline := time.Now().Add(5 * time.Second)
+	for i, dr := range runners {
+		for {
+			el, err, _, p := timedNext(dr)
+			if p {
+				return "CROWD panic"
+			}
+			if err == ysgo.ErrWaitingForCommandCompletion {
+				if time.Now().After(deadline) {
+					return fmt.Sprintf("CROWD never-completed runner %d", i)
+				}
+				time.Sleep(time.Millisecond)
+				continue
+			}
+			if err != nil || el == nil || el.Line == nil || el.Line.Text != "after" {
+				return "CROWD unexpected-element"
+			}
+			break
+		}
+	}
+	return "CROWD ok"
 }
 
 // waitCross: runner B is inside a built-in <<wait>>; runner A, with a command of its own pending, is restored (or its
